@@ -24,6 +24,10 @@ SLOTS = [
     {"ann": "Own.Inner", "vals": ["Own.Inner()"]},
     {"ann": "Type[A]", "vals": ["A", "B"]},
     {"ann": "PkgLevel", "vals": ["PkgLevel()"]},
+    # annotations a type rewriter would change if it were (wrongly) applied to what the source says
+    {"ann": "Union[int, str, float, bytes, A, Own]", "vals": ["1", "'s'", "1.5"]},
+    {"ann": "Union[List[Any], List[int]]", "vals": ["[1]", "[]"]},
+    {"ann": "Union[Dict[str, int], Dict[str, str]]", "vals": ["{'a': 1}", "{'a': 's'}"]},
 ]
 
 HEADER = '''from collections import defaultdict
@@ -283,7 +287,7 @@ class Mod:
                 if f.exit == "return":
                     f.ret_vals = [rng.choice(["1", "'s'", "A()", "None", "[1]"])]
                 if rng.random() < self.opts.get("annotate", 0.35) * 0.6:
-                    f.ret_ann = "Iterator[Any]" if f.exit != "return" else "Generator[Any, None, Any]"
+                    f.ret_ann = rng.choice(["Iterator[Any]", "Generator[Any, None, None]"]) if f.exit != "return" else "Generator[Any, None, Any]"
             else:
                 f.exit = "return" if r < 0.7 else ("none" if r < 0.8 else ("raise" if r < 0.88 else "mixed"))
             if f.exit in ("return", "mixed") and not f.ret_vals:
